@@ -30,7 +30,7 @@ Atoms(t) == CASE t.n = "bool" -> {"b:0", "b:1"}
 
 KeyOK(v) == ~(IsAtom(v) /\ v.a = "dbl:nan")   \* NaN is not a usable Go map key / set element
 
-RECURSIVE Vals(_, _), Prod(_, _, _, _)
+RECURSIVE Vals(_, _), Prod(_, _, _, _), ElemVals(_, _)
 \* f.w > 0 caps the number of values of a field (structs with many fields would otherwise explode)
 \* f.vals, when present, is the explicit value domain of the field (e.g. strings of many lengths)
 FieldVals(f, d, n0) ==
@@ -42,17 +42,22 @@ FieldVals(f, d, n0) ==
 Prod(s, i, d, n) ==
   IF i > Len(Fields(s)) THEN {<<>>}
   ELSE {(Fields(s)[i].name :> x) @@ r : x \in FieldVals(Fields(s)[i], d, n), r \in Prod(s, i + 1, d, n)}
+\* element / map-value domain: two values; for struct elements one of them is always the freshly constructed value
+ElemVals(t, d) ==
+  IF t.n = "struct" /\ d > 0 /\ StructOf(t.s).kind # "union"
+  THEN {InitialStruct(t.s)} \cup Take(Vals(t, d) \ {InitialStruct(t.s)}, 1)
+  ELSE Take(Vals(t, d), 2)
 Vals(t, d) ==
   CASE IsScalar(t) -> {[a |-> x] : x \in Atoms(t)}
-    [] t.n = "list" -> LET E == Take(Vals(t.v, d), 2) IN
+    [] t.n = "list" -> LET E == ElemVals(t.v, d) IN
          {[l |-> <<>>]} \cup {[l |-> <<e>>] : e \in E} \cup {[l |-> <<e1, e2>>] : e1 \in E, e2 \in E}
     \* with SetDups (C18) the elements of a set of containers also include nil and empty: equal by value
-    [] t.n = "set" -> LET E == Take({e \in Vals(t.v, d) : KeyOK(e)}, 2)
+    [] t.n = "set" -> LET E == {e \in ElemVals(t.v, d) : KeyOK(e)}
                                 \cup (IF SetDups /\ t.v.n \in {"list", "set"} THEN {NIL, [l |-> <<>>]}
                                       ELSE IF SetDups /\ t.v.n = "map" THEN {NIL, [m |-> <<>>]} ELSE {}) IN
          {[l |-> <<>>]} \cup {[l |-> <<e>>] : e \in E} \cup {[l |-> <<q[1], q[2]>>] : q \in {p \in E \X E : SetDups \/ p[1] # p[2]}}
     [] t.n = "map" -> LET K == Take({e \in Vals(t.k, d) : KeyOK(e)}, 2)
-                          V == Take(Vals(t.v, d), 2) IN
+                          V == ElemVals(t.v, d) IN
          {[m |-> <<>>]} \cup {[m |-> <<<<k, v>>>>] : k \in K, v \in V}
            \cup {[m |-> <<<<q[1], v1>>, <<q[2], v2>>>>] : q \in {p \in K \X K : p[1] # p[2]}, v1 \in V, v2 \in Take(V, 1)}
     \* nested struct values: the freshly constructed value (every field at its initial value: defaults where
@@ -141,7 +146,11 @@ UnknownIgnored ==    \* an unknown field changes nothing
 Emit ==
   IF c.k \in {"root", "struct"} THEN TRUE
   ELSE IF c.k = "w"
-  THEN PrintT("CASE " \o ToJson([k |-> "w", s |-> Schema.structs[c.s].name, v |-> c.v, writable |-> Writable(STy(c.s), c.v)]))
+  THEN LET wr == Writable(STy(c.s), c.v)
+           enc == IF wr THEN EncStruct(c.s, c.v) ELSE <<>>
+           r == IF wr THEN DecStruct(c.s, enc) ELSE [v |-> NIL, err |-> TRUE, c |-> <<>>] IN
+       PrintT("CASE " \o ToJson([k |-> "w", s |-> Schema.structs[c.s].name, v |-> c.v, writable |-> wr,
+                                 enc |-> enc, exp |-> [v |-> r.v, err |-> r.err, calls |-> r.c]]))
   ELSE LET r == DecStruct(c.s, c.p.toks) IN
        PrintT("CASE " \o ToJson([k |-> "r", s |-> Schema.structs[c.s].name, pert |-> [x \in DOMAIN c.p \ {"toks"} |-> c.p[x]],
                                  toks |-> c.p.toks, exp |-> [v |-> r.v, err |-> r.err, calls |-> r.c]]))
